@@ -5,6 +5,10 @@ From stdpp Require Import gmap.
 From GS Require Export Corr.MMLib Model.Wire Model.PbWire.
 Local Open Scope Z_scope.
 
+(* one request as the ingestion server saw it: status, whether something was dispatched, the
+   receive time of a dispatched map, the dispatched map / event *)
+Inductive attempt := Attempt (status : Z) (dispatched : bool) (now : Z) (obs_m : list entry) (obs_e : event).
+
 Inductive c14case :=
 (* one metric map through forwarder and server *)
 | CMetrics (compress : bool) (ctype : str) (level : Z) (inp : list entry)
@@ -30,7 +34,13 @@ Inductive c14case :=
    ingestion server dispatched.  Messages are independent: the dispatched multiset is the
    multiset of the model's per-message results, each exactly once *)
 | CConc (exp_maps : list (list entry)) (exp_events : list event) (bad_statuses : list Z)
-        (obs_maps : list (list entry)) (obs_events : list event).
+        (obs_maps : list (list entry)) (obs_events : list event)
+(* a relay damaged the first attempt in transit: [body] is what reached the server, [lib] what
+   the codec library itself makes of it (None = it rejects: checksum, end mark, framing ...).
+   The first attempt must be decided as C14_bad_body's function decides it with the library as
+   decompressor; after a refusal exactly one later attempt delivers what was given *)
+| CTamper (is_event : bool) (hdr : str) (body : str) (lib : option str) (first : attempt)
+          (given_m : list entry) (given_e : event) (later : list attempt).
 
 
 Definition mk_nested {A} (l : list (str * list (str * A))) : gmap str (gmap str A) :=
@@ -135,6 +145,27 @@ Definition check_case (c : c14case) : bool :=
         | (st, Some m) => (status =? st) && dispatched && dump_matches obs_m m
         | (st, None) => (status =? st) && negb dispatched
         end
+  | CTamper is_event hdr body lib (Attempt st1 disp1 now1 m1 e1) given_m given_e later =>
+      let dec := fun (_ : codec) (_ : str) => lib in
+      let delivered_later :=
+        match later with
+        | [Attempt st2 disp2 now2 m2 e2] =>
+            (st2 =? st_accepted) && disp2 &&
+            (if is_event then event_eqb e2 (event_from_pb (event_to_pb given_e))
+             else dump_matches m2 (from_pb now2 (to_pb (map_of_entries given_m))))
+        | _ => false
+        end in
+      match receiver_codec hdr with Some _ => true | None => false end &&
+      if is_event then
+        match event_handler dec event_unmarshal hdr (Some body) with
+        | (st, Some e) => (st1 =? st) && disp1 && event_eqb e1 e && match later with [] => true | _ => false end
+        | (st, None) => (st1 =? st) && negb disp1 && delivered_later
+        end
+      else
+        match metric_handler dec pb_unmarshal now1 hdr (Some body) with
+        | (st, Some m) => (st1 =? st) && disp1 && dump_matches m1 m && match later with [] => true | _ => false end
+        | (st, None) => (st1 =? st) && negb disp1 && delivered_later
+        end
   | CConc exp_maps exp_events bad obs_maps obs_events =>
       match bad with [] => true | _ => false end
       && multiset_eqb conc_map_same exp_maps obs_maps
@@ -162,6 +193,10 @@ Definition explain_case (c : c14case) : explanation :=
   | CRaw is_event hdr raw _ _ now _ _ =>
       if is_event then let r := event_handler (fun _ b => Some b) event_unmarshal hdr (Some raw) in XRaw (fst r) None (snd r)
       else let r := metric_handler (fun _ b => Some b) pb_unmarshal now hdr (Some raw) in XRaw (fst r) (option_map entries (snd r)) None
+  | CTamper is_event hdr body lib (Attempt _ _ now1 _ _) _ _ _ =>
+      let dec := fun (_ : codec) (_ : str) => lib in
+      if is_event then let r := event_handler dec event_unmarshal hdr (Some body) in XRaw (fst r) None (snd r)
+      else let r := metric_handler dec pb_unmarshal now1 hdr (Some body) in XRaw (fst r) (option_map entries (snd r)) None
   | CConc exp_maps exp_events _ _ _ =>
       XConc (map (fun g => entries (from_pb 0 (to_pb (map_of_entries g)))) exp_maps)
             (map (fun e => event_from_pb (event_to_pb e)) exp_events)
